@@ -53,6 +53,17 @@ DESC = {
     "C17_r3": ("cat_hold_exit: hold flag tested before lock(), status written unconditionally under the lock", "a second releasing thread losing the race for the mutex to cat_service"),
     "C19_r3": ("print_cmd_list: '?' form listed by (var != NULL ? readable : read handler)", "a command with a read handler whose variables are all write-only (or var set with var_num 0)"),
     "C20_r3": ("parse_command_args: only_test command at LF goes to CAT_STATE_ERROR (LF already consumed) instead of ack_error", "write syntax on a test-only command directly followed by another line: no answer, next line swallowed"),
+    # ---- round 4 (after the event-only and hold guided runs were added) ----
+    "C02_r4": ("parse_command_args: the '&& implicit_write == false' guard of the 'first argument byte is ?' -> TEST retyping dropped", "an implicit-write command that owns a variable, typed as <name>? : served as TEST (variable listing + OK) instead of WRITE"),
+    "C06_r4": ("command_found: the initial get_atcmd_buf(self)[0] = 0 for WRITE removed ('parse_command_args terminates anyway')", "a write line with an empty argument string: data_size 0 but data[0] holds leftovers of the match table"),
+    "C09_r4": ("parse_command_args: the early only_test check folded into the later 'no write handler' check (after the writable-variable branch)", "a test-only command that owns a writable variable: AT+X=7 stores the value and runs callbacks"),
+    "C10_r4": ("process_test_loop: PRINT_CMD_LIST_OK starts the command list unconditionally (also for an unsolicited test handler)", "an unsolicited test handler returning PRINT_CMD_LIST_OK: list + OK through the command FSM, event never finishes"),
+    "C11_r4": ("get_atcmd_buf_size: shared buffer split as (buf_size + 1) >> 1 (command half overlaps byte 0 of the event half for odd sizes)", "an odd shared buf_size and a pending event line while a new command line starts (memset of the command half)"),
+    "C12_r4": ("error_state: drains the broken line with a while(read) loop, 'CR seen' kept in a local until the LF", "input chunk boundary between the CR and the LF of a malformed line: newline style of the ERROR answer depends on the chunking"),
+    "C13_r4": ("process_read_loop / process_test_loop: HOLD_EXIT_* end the processing only if hold_exit() succeeded", "an event handler returning HOLD_EXIT_* while no command is held: the event never ends, its handler runs on every call, later events starve"),
+    "C14_r4": ("hold_state_flag cleared in reset_state() (after the result code was flushed) instead of when the release is processed", "cat_is_hold / cat_hold_exit while the held command's result code is being emitted and afterwards"),
+    "C15_r4": ("error_state: while(read) loop without the 'no byte available -> OK' exit (always BUSY)", "input running dry inside a malformed line: cat_service reports BUSY forever without doing anything"),
+    "C18_r4": ("is_busy: CAT_STATE_HOLD counts as idle", "cat_is_busy during a hold: OK although the command's result code is still owed"),
 }
 
 
